@@ -60,6 +60,9 @@ def comp_blocks(comp):
         'sync2': [('s1', 'sync', {}), ('s2', 'sync', {})],
         'async-stop': [('a1', 'astop', {'astop': 2}), ('s1', 'sync', {}), ('a2', 'astop', {'astop': 1})],
         'async-stop-timeout': [('a1', 'astop', {'astop': None, 'stop_timeout': 3}), ('s1', 'sync', {})],
+        'async-stop-timeout2': [('a1', 'astop', {'astop': None, 'stop_timeout': 3}), ('s1', 'sync', {}),
+                                ('a2', 'astop', {'astop': None, 'stop_timeout': 2}),
+                                ('a3', 'astop', {'astop': 5, 'stop_timeout': 3})],
         'maintask': [('m1', 'maintask', {}), ('s1', 'sync', {})],
         'fsm': [('fsm', 'fsm', {}), ('s1', 'sync', {})],
         'outfunc': [('of', 'outfunc', {}), ('s1', 'sync', {})],
@@ -74,7 +77,7 @@ def comp_blocks(comp):
     }[comp]
 
 
-COMPS = ['sync2', 'async-stop', 'async-stop-timeout', 'maintask', 'fsm', 'outfunc', 'outasync',
+COMPS = ['sync2', 'async-stop', 'async-stop-timeout', 'async-stop-timeout2', 'maintask', 'fsm', 'outfunc', 'outasync',
          'outasync-start', 'repeat', 'slow-init', 'valuepoll', 'cblock', 'chain', 'mix']
 PROBE_KINDS = {'sync', 'astop', 'maintask', 'ainit'}
 
@@ -524,12 +527,22 @@ def judge(cfg, specs, log, flog, res):
         if sync_stops and k_stop > min(sync_stops):
             viol.append(('async-block-stopped-late',
                          f"{tag}: {name}.stop() came after the stop() of a block without async clean-up"))
+        if kind == 'astop' and (name, 'stop_async') in idx:
+            # bounded by stop_timeout, but over (finished, failed or cancelled) before the others
+            if (name, 'stop_async_exit') not in idx:
+                viol.append(('stop_async-not-awaited',
+                             f"{tag}: {name}.stop_async was still running when the simulation ended"))
+            elif sync_stops and idx[(name, 'stop_async_exit')][0] > min(sync_stops):
+                viol.append(('stop_async-not-awaited',
+                             f"{tag}: a block without async clean-up was stopped while "
+                             f"{name}.stop_async was still running"))
         if kind == 'astop':
             if (name, 'stop_async') not in idx:
                 viol.append(('stop_async-not-called', f"{tag}: {name}: stop() without stop_async()"))
             elif len(idx[(name, 'stop_async')]) > 1:
                 viol.append(('stop_async-twice', f"{tag}: {name}"))
-            elif params['astop'] is not None and cfg['fault'] != (name, 'stop_async'):
+            elif (params['astop'] is not None and params['astop'] < params.get('stop_timeout', 10)
+                  and cfg['fault'] != (name, 'stop_async')):
                 if (name, 'stop_async_end') not in idx:
                     viol.append(('stop_async-not-awaited',
                                  f"{tag}: {name}.stop_async did not finish (timeout 10 s, needs {params['astop']} s)"))
